@@ -1,5 +1,6 @@
 /- The fact values the C12 theorems are proved for (and the oracle runs the model with):
-   the tree AFTER fixes/C12-container-pointernum.diff and fixes/C12-nil-in-pointer-chain.diff. -/
+   the tree AFTER fixes/C12-container-pointernum.diff, fixes/C12-nil-in-pointer-chain.diff and
+   fixes/C12-empty-registry-key.diff. -/
 import EinoV.Model.C12
 namespace EinoV.Expected.C12
 open EinoV.C12
@@ -25,6 +26,7 @@ def composeRegistry : List (String × String) :=
 
 def registerForwards : Bool := true
 def registerRejectsDuplicates : Bool := true
+def registerRejectsEmptyKey : Bool := true
 
 /-- the order `dec` tests the discriminating fields in (the rest is the slice branch) -/
 def decodeDispatch : List String := ["Type", "StructType", "MapKeyType"]
